@@ -989,7 +989,7 @@ func rulesC02(c *Ctx) {
 					okTarget, _ = hg.BranchTargets(cvx - 1)
 				}
 			}
-			c.Need(okTarget >= 0, "SSE ServeHTTP: type assertion to *Request")
+			c.Must(okTarget >= 0, "sse.ServeHTTP:send#"+itoa(i)+"-validated", sh, s, "a decoded request reaches the session only through checkRequest: the validated *Request branch in front of this hand-off is gone")
 			okp, p := hg.MustPassIncl(okTarget, []int{hg.VertexOf(s)}, func(v int) bool { return v == scv[0] })
 			c.Check(okp || okTarget == scv[0], "sse.ServeHTTP:send#"+itoa(i)+"-validated", sh, s, "a decoded request reaches the session only through checkRequest %s", hg.PathString(p))
 		}
